@@ -143,6 +143,7 @@ func Load(overlay map[string][]byte) (*Program, error) {
 		return a.String() < b.String()
 	})
 	p.NFuncs = len(p.srcFuncs)
+	p.indexFieldOwners()
 	return p, nil
 }
 
